@@ -227,55 +227,90 @@ pub fn check(opt: &OptCfg, h: &NetHistory, stats: &mut Stats) -> Outcome {
         return Outcome::HarnessError(format!("parameter tensor count {} does not match the configuration ({})", rec.params[0].len(), p));
     }
 
+    // One-step-ahead comparison: at every step the reference starts from the *library's*
+    // current (tied) value and applies the documented rule with its own, separately tracked
+    // slot state (moments depend only on the recorded gradients, plus the decay term). The
+    // value is re-anchored each step because the coupling of a feedback block feeds the
+    // weights back into themselves (multiplicative coupling raises them to the power
+    // `loops` per step), which would amplify harmless rounding differences of a free-running
+    // reference without bound.
+    // "moderate magnitude": the stream-level patterns go up to 1e3; at network level the
+    // inputs of a step (current value, gradient) and every per-copy result must stay below
+    // 1e6, so that neither the coupling product of up to 12 copies overflows single precision
+    // nor a difference of huge terms is compared against a tiny result
+    const MODERATE: f64 = 1e6;
     for (copies, acc) in &groups {
         let len = rec.params[0][copies[0]].len();
         for e in 0..len {
-            let mut tied = rec.params[0][copies[0]][e] as f64;
-            let mut st64: Vec<RefState<f64>> = copies.iter().map(|_| RefState { w: tied, a: 0.0, b: 0.0, c: 0.0 }).collect();
-            let mut st32: Vec<RefState<f32>> = copies.iter().map(|_| RefState { w: tied as f32, a: 0.0, b: 0.0, c: 0.0 }).collect();
-            let mut tied32 = tied as f32;
+            let mut st64: Vec<RefState<f64>> = copies.iter().map(|_| RefState { w: 0.0, a: 0.0, b: 0.0, c: 0.0 }).collect();
+            let mut st32: Vec<RefState<f32>> = copies.iter().map(|_| RefState { w: 0.0, a: 0.0, b: 0.0, c: 0.0 }).collect();
             for (t, (stepnr, _)) in h.steps.iter().enumerate() {
+                let before = rec.params[t][copies[0]][e];
                 let mut after64 = Vec::new();
                 let mut after32 = Vec::new();
+                let mut inputs_ok = before.is_finite() && (before as f64).abs() < MODERATE;
                 for (k, c) in copies.iter().enumerate() {
                     let g = match rec.grads[t].get(*c).and_then(|v| v.get(e)) {
                         Some(g) => *g,
                         None => return Outcome::HarnessError("gradient layout does not match the parameter layout".into()),
                     };
-                    st64[k].w = tied;
-                    st32[k].w = tied32;
+                    if !(g.is_finite() && (g as f64).abs() < MODERATE) {
+                        inputs_ok = false;
+                    }
+                    st64[k].w = before as f64;
+                    st32[k].w = before;
                     reference_step(&sub, &mut st64[k], g, *stepnr);
                     reference_step(&sub, &mut st32[k], g, *stepnr);
                     after64.push(st64[k].w);
                     after32.push(st32[k].w as f64);
                 }
+                // the property's precondition: finite inputs of moderate magnitude
+                if !inputs_ok {
+                    break;
+                }
                 let (w64, w32) = match acc {
                     Some(a) => (couple(*a, &after64), couple(*a, &after32)),
                     None => (after64[0], after32[0]),
                 };
-                tied = w64;
-                tied32 = w32 as f32;
-                if !(w64.is_finite() && w64.abs() < 1e30) {
+                if !(w64.is_finite() && w64.abs() < MODERATE)
+                    || after64.iter().any(|a| !(a.abs() < MODERATE))
+                    || st64.iter().any(|s| !(s.a.abs() < 1e12 && s.c.abs() < 1e12))
+                {
                     break;
                 }
-                if !((w32 - w64).abs() <= 1e-5 * (1.0 + w64.abs())) {
-                    break; // ill-conditioned from here on
+                // error scale: the largest term that enters the coupling (a subtractive
+                // coupling may cancel large terms into a small result)
+                let scale = after64.iter().fold(w64.abs(), |m, a| m.max(a.abs()));
+                if !((w32 - w64).abs() <= 1e-5 * (1.0 + scale)) {
+                    break; // ill-conditioned from here on (the two references disagree)
                 }
                 for c in copies {
                     let lib = rec.params[t + 1][*c][e];
                     if !lib.is_finite() {
                         return Outcome::Violation(Violation {
                             class: "non_finite".into(),
-                            detail: format!("network level: parameter tensor {} element {} becomes {} at step {}", c, e, lib, t + 1),
+                            detail: format!(
+                                "network level: parameter tensor {} element {} becomes {} at step {} from {:e} (documented rule gives {:e})",
+                                c, e, lib, t + 1, before, w64
+                            ),
                             signature: sig,
                         });
                     }
-                    if !((lib as f64 - w64).abs() <= 1e-4 * (1.0 + w64.abs())) {
+                    if !((lib as f64 - w64).abs() <= 1e-4 * (1.0 + scale)) {
+                        if std::env::var("VERIF_DEBUG_C03").is_ok() {
+                            eprintln!("DEBUG copies {:?} acc {:?} elem {} step {} stepnr {}", copies, acc, e, t + 1, stepnr);
+                            for (k, c) in copies.iter().enumerate() {
+                                eprintln!("  copy {} tensor {}: before {:e} grad {:e} ref-after {:e} lib-after {:e} state a={:e} b={:e}", k, c, rec.params[t][*c][e], rec.grads[t][*c][e], after64[k], rec.params[t + 1][*c][e], st64[k].a, st64[k].b);
+                            }
+                            for tt in 0..=t {
+                                eprintln!("  t={} grads {:?} params {:?}", tt, copies.iter().map(|c| rec.grads[tt][*c][e]).collect::<Vec<_>>(), copies.iter().map(|c| rec.params[tt][*c][e]).collect::<Vec<_>>());
+                            }
+                        }
                         return Outcome::Violation(Violation {
                             class: "network_slot_mismatch".into(),
                             detail: format!(
-                                "network level: parameter tensor {} element {} after step {} (step number {}): library {:e}, documented rule with this slot's own state {:e}",
-                                c, e, t + 1, stepnr, lib, w64
+                                "network level: parameter tensor {} element {} at step {} (step number {}): from {:e} the library goes to {:e}, the documented rule with this slot's own state to {:e}",
+                                c, e, t + 1, stepnr, before, lib, w64
                             ),
                             signature: sig,
                         });
